@@ -28,6 +28,7 @@ EXHAUSTIVE_DOMAINS = {
     'list_lattice': 'List(Int, min_size, max_size) over {0,1,2} x {None,0,1,2} x noneable: all ordered pairs',
     'vtuple_lattice': 'variable-length Tuple(Int, min_size, max_size) over {0,1,2} x {None,0,1,2,3}: all ordered pairs',
     'enum_vs_int': 'base Int(min,max) over {None,0,1,2}^2 x child Enum over every non-empty subset of {-1,0,1,2,3}',
+    'sized_tuple_vs_fixed': 'base fixed Tuple of 2-3 Int positions with ranges from {none, >=0, <=1, 1..2} x child Tuple(Int, size=n)',
     'frozen_enum_base': 'base Enum([0,1,2]) frozen at i x child (Enum / Int / smaller Enum) frozen at j, all i, j',
     'union_frozen_candidate': 'base Union([Int frozen at 0/1/2, Str]) x child in {Int, Int(min 0), Int frozen at 0/1/2, Enum, Str}',
     'union_overlap': 'Union of Bool and Int(min,max) over {None,0,2}^2 in both orders, bare or as List element x every ordered pair '
@@ -136,6 +137,15 @@ def exhaustive(tier):
         for wrap in ('none', 'list'):
           for x, y in itertools.product(OVERLAP_VALUES, repeat=2):
             yield {'overlap': {'lo': lo, 'hi': hi, 'bool_first': bool_first, 'str': False, 'wrap': wrap}, 'seq': [x, y]}
+  def sized_tuples():
+    # a child Tuple(spec, size=n) shares ONE element spec among its positions; the base constrains each position
+    rng = [(None, None), (0, None), (None, 1), (1, 2)]
+    for n in (2, 3):
+      for combo in itertools.product(rng, repeat=n):
+        base = {'t': 'tuple', 'elems': [{'t': 'int', 'min': lo, 'max': hi} for lo, hi in combo]}
+        child = {'t': 'vtuple', 'elem': {'t': 'int', 'min': None, 'max': None}, 'min': n, 'max': n}
+        yield {'a': base, 'derive': [], 'other': child, 'values': [[0, [0]], [0, [1, 2]], [2, [0]], [2, [1]], [2, [2, 1]], [1, [0]], [3, [0]], [3, [1]]]}
+
   def frozen_enums():
     vals = [0, 1, 2]
     for i in range(3):
@@ -153,7 +163,8 @@ def exhaustive(tier):
       for cv in (0, 1, 2):
         yield {'ufc': {'frozen': fv, 'child': 'int_frozen', 'child_frozen': cv}}
   return {'int_lattice': pairs(ints()), 'list_lattice': pairs(lists()), 'vtuple_lattice': pairs(vtuples()),
-          'enum_vs_int': enums(), 'union_overlap': overlaps(), 'union_frozen_candidate': ufcs(), 'frozen_enum_base': frozen_enums()}
+          'enum_vs_int': enums(), 'union_overlap': overlaps(), 'union_frozen_candidate': ufcs(), 'frozen_enum_base': frozen_enums(),
+          'sized_tuple_vs_fixed': sized_tuples()}
 
 
 def _derive(d, kind, arg):
